@@ -10,7 +10,8 @@ Models: `Target/Model.lean` (target language, buffer stack, caller stack, `nextc
 specification renderer: **no stacks** – output is a returned value, a buffered def *is* the string its content
 renders to, `caller` is an argument: a def gets the namespace handed over at its call, the content of a `<%call>`
 gets the `caller` of the scope it is written in), `Codegen/Attrs.lean` (`Tag._parse_attributes`,
-`CallNamespaceTag`, `get_argument_expressions`).  Helper lemmas: `Codegen/Calls*.lean`, `Codegen/AttrsLemmas*.lean`.
+`CallNamespaceTag`, `get_argument_expressions`), `Codegen/AttrsDefaults.lean` (the defaults of a signature are printed back
+from their syntax trees: the signature model composed with C19's printer model `PyExpr/Print.lean`).  Helper lemmas: `Codegen/Calls*.lean`, `Codegen/AttrsLemmas*.lean`.
 
 `GoodAll ts` (`Codegen/Calls.lean`, decidable) is the guard of the refinement.  Covered, at any nesting depth: text,
 `${expr | filters}` with def calls by name, `capture(f, …)`, `caller.x(…)`, concatenations and calls as arguments of
@@ -49,6 +50,9 @@ OPEN – statements that are false of mako's code, each kept with a `…_counter
   (guard `wf` of `attr_concat_order`; `attr_concat_order_counterexample`);
 * F-C05-sig-barestar: `get_argument_expressions` drops a bare `*` (guard of `signature_reemitted_partial`;
   `signature_reemitted_counterexample`).
+Recorded by the Lean-free oracle only (no statement of this file is false because of it): F-C05-6 – a def whose default
+mentions a name cannot be called by name from a scope in which its own name sorts before that name
+(`write_variable_declares` writes callables and `name = context.get(…)` lines in one alphabetical pass).
 
 All theorems quantify over every template set, every crash point `k`, every fuel and every start state related
 to the specification's arguments (`RelC` / `RelW`; true of the initial state, preserved by every execution).
